@@ -25,11 +25,7 @@ func (m *Module) Init(s *models.Session, p *models.Participant) {
 	m.currentSession = s
 	m.currentParticipant = p
 
-	state, ok := s.ModuleState(m.Name())
-	if !ok {
-		state = &State{}
-		s.SetModuleState(m.Name(), state)
-	}
+	state := s.ModuleStateOrInit(m.Name(), func() any { return &State{} })
 	m.state = state.(*State)
 }
 
